@@ -334,6 +334,9 @@ func runHs13Script(idx int, sc *hs13Script) hsResult { //nolint:cyclop,gocognit,
 			if !sameKinds(noAlert, p.Emits) {
 				div("step %d %s %s: emitted %v, model %v", i, st.Act, st.Arg, noAlert, p.Emits)
 			}
+			if scen.NoBackoff {
+				p.Cbk, p.Sbk = 0, 0
+			}
 			if (cst == "Waiting" && cbk != p.Cbk) || (sst == "Waiting" && sbk != p.Sbk) {
 				div("step %d %s %s: backoff exponent c=%d s=%d, model c=%d s=%d", i, st.Act, st.Arg, cbk, sbk, p.Cbk, p.Sbk)
 			}
@@ -367,6 +370,9 @@ func runHs13Script(idx int, sc *hs13Script) hsResult { //nolint:cyclop,gocognit,
 					}
 					if !scen.NoBackoff && bkA != want && want <= 3 {
 						law("C17 timer law: interval exponent of %s after a timeout is %d, expected %d (step %d)", side, bkA, want, i)
+					}
+					if scen.NoBackoff && bkA != 0 {
+						law("C17 timer law: backoff is disabled but the interval of %s grew (exponent %d, step %d)", side, bkA, i)
 					}
 				case stB == "Waiting":
 					if n != 0 {
